@@ -20,6 +20,12 @@ pub enum Path {
     R,
     /// local `insert` / `delete_prefix` with the clock pinned to the entry's timestamp
     L,
+    /// life cycle: the document is removed from the store and created again (the step's entry is
+    /// ignored)
+    X,
+    /// a question in the middle of a history: every lookup and query the explorer asks at the end
+    /// (the step's entry is ignored)
+    Q,
 }
 
 #[derive(Debug, Clone, PartialEq, Eq, Hash, Serialize, Deserialize)]
@@ -51,6 +57,22 @@ pub fn apply(sut: &mut Sut, step: &Step) -> Outcome {
             let r = sut.local_insert(ns, &author(step.spec.author), &step.spec.key, step.spec.val);
             set_clock(NOW);
             r
+        }
+        Path::X => {
+            let removed = sut.store.remove_replica(&ns);
+            let created = sut
+                .store
+                .import_namespace(iroh_docs::Capability::Write(crate::universe::ns_secret(step.spec.ns)));
+            match (removed, created) {
+                (Ok(()), Ok(_)) => Outcome::Inserted(0),
+                (r, c) => Outcome::StoreError(format!("remove/re-create: {r:?} {:?}", c.map(|_| ()))),
+            }
+        }
+        Path::Q => {
+            let _ = snapshot(sut, ns);
+            let _ = sut.store.get_exact(ns, author_id(step.spec.author), &step.spec.key, true);
+            let _ = sut.heads(ns);
+            Outcome::Inserted(0)
         }
     }
 }
